@@ -136,6 +136,8 @@ func runC03(ctx *core.Ctx, pool *par.Pool) {
 		ctx.SetBudget(115 * 1e9)
 	}
 	total := xstate.Stats{}
+	confPaths := map[string][][]pagedrv.Op{}
+	nTrans := 0
 	var flushPaths []SeqPathParams
 	flushSig := map[string]bool{}
 	for _, run := range plan(cfgs, []seed{seedTwo, seedWAL, seedFrag}, depth, seedDepth) {
@@ -144,6 +146,11 @@ func runC03(ctx *core.Ctx, pool *par.Pool) {
 			OnTransition: func(from *xstate.Node, s *xstate.Succ, isNew bool, _ *xstate.Node) {
 				if isNew && from.Depth >= 3 {
 					ctx.AddSample(map[string]interface{}{"cfg": cfg.Name, "history": pagedrv.PathString(append(from.Path(), s.Op))})
+				}
+				// conformance sample: every history of at most 3 operations past the seed, then every 97th transition
+				nTrans++
+				if from.Depth < 3 || nTrans%97 == 0 {
+					confPaths[cfg.Name] = append(confPaths[cfg.Name], append(from.Path(), s.Op))
 				}
 				// histories that end a transaction which flushed: candidates for the writer-timing pass
 				if s.Op.K == pagedrv.OCommit || s.Op.K == pagedrv.ORollback {
@@ -168,6 +175,17 @@ func runC03(ctx *core.Ctx, pool *par.Pool) {
 		total.States += st.States
 		total.Transitions += st.Transitions
 		ctx.Set("depth_"+run.name(), st.Depth)
+	}
+	// instrumentation conformance: same histories on the plain build (real sync, free-running writer, Go's map order)
+	if pp := plainPool(ctx); pp != nil {
+		validated := 0
+		for _, cfg := range cfgs {
+			validated += xstate.Conformance(ctx, pool, pp, cfg, confPaths[cfg.Name])
+		}
+		pp.Close()
+		ctx.Set("histories_identical_on_plain_build", validated)
+	} else {
+		ctx.Cap("plain build not available: conformance pass skipped")
 	}
 	// (iii) wide histories
 	for _, cfg := range []pagedrv.Cfg{pagedrv.CfgC, pagedrv.CfgE} {
